@@ -1,7 +1,7 @@
 """C16 - Queue behaves as an ideal double-ended sequence under every operation sequence.
 
  The property-level oracle is spec/Deque/Deque.tla: the sequence of items and NOTHING else (no capacity, no head offset), one action per
- public call of util/Queue.h with the result and failure condition its header comment documents (87 calls; Either / Undocumented where the
+ public call of util/Queue.h with the result and failure condition its header comment documents (88 calls; Either / Undocumented where the
  header is silent; documented preconditions respected).
 
  1. TLC model-checks Deque.tla (GenSpec: every call, arguments from small menus, values {1,2,3} + the default item 0, length <= 4; thorough:
@@ -36,7 +36,7 @@ WRONG = {"failchanges": "FailureExact", "insertfails": "FailureExact", "querymut
          "addhead": "OrderLaw", "sortfrom": "SortLaw", "revto": "ReverseLaw", "stale": "DefaultLaw", "indexofend": "SearchLaw", "cmpprefix": "CmpLaw", "type": "TypeOK"}
 # calls that are not generated from the specification's menus (bound by the random driver only)
 NOT_GENERATED = {"FastClear", "AddTailMultiOwnArr", "AddHeadMultiOwnArr"}
-TYPES = ["int", "String", "Tok"]
+TYPES = ["int", "String", "Tok", "uint8", "uint16"]     # uint8 / uint16: the inline buffer has 8 / 4 slots (sizeof-dependent), not SMALL_QUEUE_SIZE
 KNOWN_TEXT = {
     "F16realloc": "Queue<int>::EnsureSize(n, true) that has to reallocate adds items that are not default items (the new array is left as the allocator delivered it)",
     "QswapStale": "copy-only owning item type: SwapContents / Plunder / move-assignment between a Queue in its inline buffer and one on the heap leaves copies of the items in the inline buffer; after the Queue shrinks back into it they are outside the window, and EnsureSize(n, true) shows them as 'default' items",
@@ -166,7 +166,7 @@ def run(v, tier, seed):
             if os.path.exists(rp): os.remove(rp)
             rc, so, se = _run_harness([qu, "replay", bf, rp, typ], 600 if quick else 2400)
             return typ, rc, se, (_rows(rp) if os.path.exists(rp) else [])
-        with cf.ThreadPoolExecutor(max_workers=3) as ex2: reps = list(ex2.map(replay, TYPES))
+        with cf.ThreadPoolExecutor(max_workers=5) as ex2: reps = list(ex2.map(replay, TYPES))
         # sensitivity guard: ONE field of ONE step of a behaviour changed -> the replay must report exactly that step
         guard = []
         int_clean = all(rc == 0 and not [x for x in rows if x.get("violations")] for typ, rc, se, rows in reps if typ == "int")
@@ -354,7 +354,7 @@ def run(v, tier, seed):
            "directed_cases": {k: x for k, x in notes.items() if k.startswith("directed_")},
            "laws_shown_violable_in_this_run": sorted((w, l) for w, l in WRONG.items() if (not quick) or w in ("failchanges", "stale", "addhead", "indexofend")), "corrupted_trace_lines_rejected_by_tlc": notes.get("corrupted_trace_lines_rejected"),
            "evaluations": rs.get("steps", 0) + tot["calls"], "distinct_nontrivial": info["transitions"],
-           "rule": "distinct = transitions of the TLC state graph of Deque.tla (contents before, call, arguments; values %s + default, length <= %d, %d of the 87 calls), each taken at least once by a replayed walk and compared on 3 item types x 4 start configurations; non-trivial by construction (every call of the menu changes or queries a given contents). Random calls (all 87) are additional and not deduplicated." % (info["values"], info["max_length"], info["calls_generated"]),
+           "rule": "distinct = transitions of the TLC state graph of Deque.tla (contents before, call, arguments; values %s + default, length <= %d, %d of the 88 calls), each taken at least once by a replayed walk and compared on 5 item types x 4 start configurations; non-trivial by construction (every call of the menu changes or queries a given contents). Random calls (all 88) are additional and not deduplicated." % (info["values"], info["max_length"], info["calls_generated"]),
            "exhaustive": True, "samples": samples[:5]}
     assumptions = ["values are small integers: 0 is the default item; Queue<String> items are 1 or 24 characters (inline / heap String storage); Sort stability is not observable with them",
                    "out-of-memory and B_RESOURCE_LIMIT results are not provoked (sizes stay far below MUSCLE_NO_LIMIT; 99 in the specification stands for it)",
